@@ -41,7 +41,18 @@ func (s *plainSession) stop() {
 	}
 }
 
+// steps that ran into the 20 s limit in this run: after a few nothing is waited for any more (the sweep ends)
+var c16Stalls int
+
 func (s *plainSession) step(m mocrelay.ClientMsg) (replies []mocrelay.ServerMsg, stalled bool) {
+	if c16Stalls >= 3 {
+		return nil, true
+	}
+	defer func() {
+		if stalled {
+			c16Stalls++
+		}
+	}()
 	s.nb++
 	id := fmt.Sprintf("%s%d", barrierPrefix, s.nb)
 	to := time.After(20 * time.Second)
@@ -297,7 +308,7 @@ func init() {
 				lines += len(msgs)
 				g.made = nil
 			}
-			for lines < n {
+			for lines < n && c16Stalls < 3 {
 				k := r.Range(5, 30)
 				if r.P(80) {
 					c16CacheHistory(r, g, nil, pick(r, []int{1, 2, 3, 5, 8, 50}), nil, true, k)
